@@ -48,6 +48,23 @@ func (*c01) ID() string { return "C01" }
 // co-process reads about 2 MB/s of case text per core and a file is one line).
 const C01QuickCap = 60 << 10
 
+// C01StringCap: files holding a string literal longer than this are skipped (and counted)
+// in every tier.  The extracted model needs time far more than linear in the length of ONE
+// string literal (measured: 4 KiB 0.26 s, 8 KiB 1.3 s, 16 KiB 7.9 s, 64 KiB 290 s;
+// time/tzdata/zzipdata.go holds one of 400 KB); the implementation has no such limit.
+const C01StringCap = 8 << 10
+
+func c01LongestString(f *ast.File) int {
+	m := 0
+	ast.Inspect(f, func(n ast.Node) bool {
+		if bl, ok := n.(*ast.BasicLit); ok && bl.Kind == token.STRING && len(bl.Value) > m {
+			m = len(bl.Value)
+		}
+		return true
+	})
+	return m
+}
+
 const c01NewerRoot = "/opt/veriftools/go1.26.8/src"
 
 func (p *c01) stream(name string) *c01Sum {
@@ -226,6 +243,10 @@ func (p *c01) c01Case(stream, name string, src []byte, r *rand.Rand, dir string,
 	if err != nil {
 		return marker("parse-error", "")
 	}
+	if n := c01LongestString(f); n > C01StringCap {
+		// cost of the model co-process, not a limit of the DSL: see C01StringCap
+		return marker(fmt.Sprintf("string-literal>%d-bytes(model-cost)", C01StringCap), f.Name.Name)
+	}
 	if v := GofmtStable(src); v != "" {
 		// the toolchain's own formatter does not keep this source's tree: outside the domain
 		// (nothing of jennifer is involved in this test)
@@ -279,7 +300,7 @@ func (p *c01) totals(stream string, out []*Case) {
 func (p *c01) gorootStream(r *rand.Rand, t, root, stream string) []*Case {
 	files := c01GoFiles(root)
 	if t != "thorough" {
-		files = c01Stratify(r, root, files, 240, C01QuickCap)
+		files = c01Stratify(r, root, files, 400, C01QuickCap)
 	}
 	pkgName := rebuild.PkgNameIn(root)
 	var out []*Case
@@ -310,7 +331,7 @@ func genPkgNameOrStd(path string) (string, bool) {
 }
 
 func (p *c01) generatedStream(r *rand.Rand, t string) []*Case {
-	n := tier(t, 1000, 20000)
+	n := tier(t, 2000, 20000)
 	var out []*Case
 	for i := 0; i < n; i++ {
 		depth := 2 + r.Intn(11) // 2..12
@@ -354,6 +375,7 @@ func (p *c01) Regressions() []*Case {
 		{"bare-return", "package p\n\nfunc f() (n int, err error) {\n\tif n > 0 {\n\t\treturn\n\t}\n\treturn\n}\n"},
 		{"empty-case-bodies", "package p\n\nfunc f(x any) {\n\tswitch x {\n\tcase 1:\n\tcase 2, 3:\n\tdefault:\n\t}\n\tswitch x.(type) {\n\tcase int:\n\tdefault:\n\t}\n\tselect {\n\tcase <-c:\n\tcase c <- 1:\n\tdefault:\n\t}\n\tswitch {\n\t}\n\tselect {}\n}\n"},
 		{"label-before-brace", "package p\n\nfunc f() {\n\tfor {\n\t\tgoto L\n\tL:\n\t}\nM:\n}\n"},
+		{"label-on-explicit-empty-statement", "package p\n\nfunc f(x any) {\n\tswitch x {\n\tcase 1:\n\tL:\n\t\t;\n\tcase 2:\n\t\t;\n\tdefault:\n\t}\nM:\n\t;\n\tg()\n\t;\n}\n"},
 		{"three-index-slice", "package p\n\nvar a = b[1:2:3]\nvar c = b[:2:3]\nvar d = b[:]\nvar e = b[1:]\nvar g = b[:2]\nvar h = b[i+1 : j*2 : cap(b)]\n"},
 		{"huge-constants", "package p\n\nconst (\n\ta = 123456789012345678901234567890\n\tb = 0xFFFF_FFFF_FFFF_FFFF_FFFF\n\tc = 1e1000\n\td = 3.14159265358979323846264338327950288419716939937510582097494459\n\te = 9223372036854775807\n\tf = 9223372036854775808\n\tg = 0x1p-1074\n\th = 2i\n\ti = '\\U0010FFFF'\n)\n"},
 		{"arity-0-to-8", "package p\n\nfunc f() { g(); g(1); g(1, 2, 3, 4, 5, 6, 7, 8); _ = []int{}; _ = []int{1, 2, 3, 4, 5, 6, 7, 8}; _ = T{A: 1, B: 2, C: 3, D: 4, E: 5, F: 6, G: 7, H: 8} }\n\nfunc h(a, b, c, d, e, f, g, i int) (j, k, l, m, n, o, q, r int) { return 1, 2, 3, 4, 5, 6, 7, 8 }\n"},
